@@ -1049,6 +1049,17 @@ func (w *pworld) scenario(id string, thorough bool) {
 			do(w.message(&k2))
 			if k2.Timestamp.Unix() == m.k.Timestamp.Unix() {
 				collectLoop(m)
+			} else if alive {
+				// same message id, other body (a re-emission after a source-chain reorg): a message of its own from here on -
+				// other guardians sign it too, and when it completes it is stored under the id the first one is stored under
+				idx := uint32(0)
+				if w.gs != nil {
+					idx = w.gs.Index
+				}
+				v2 := w.mkVAA(&k2, idx)
+				m2 := &pmsg{k: &k2, v: v2, digest: v2.SigningMsg().Bytes()}
+				msgs = append(msgs, m2)
+				collectLoop(m2)
 			}
 		case c < 85: // inbound signed VAA
 			var base *vaa.VAA
@@ -1120,6 +1131,19 @@ func (w *pworld) scenario(id string, thorough bool) {
 				}
 			}
 			do(w.inbound(b))
+			if alive && (kind == 8 || kind == 1) && r.Intn(2) == 0 {
+				// a second VAA that lifts the signature records of the one just delivered (genuine, possibly just verified and
+				// stored) onto another message's body: every signature is a valid signature of a member - over another digest
+				if gen, err := vaa.Unmarshal(b); err == nil {
+					other := newMsg().v
+					forged := *other
+					forged.GuardianSetIndex = gen.GuardianSetIndex
+					forged.Signatures = gen.Signatures
+					if fb, err := forged.Marshal(); err == nil {
+						do(w.inbound(fb))
+					}
+				}
+			}
 		case c < 88 && r.Intn(12) == 0: // a guardian set without keys is delivered, some traffic, then a proper set again
 			saved := curSet
 			do(w.setUpdate(mkgs(w.gs.Index+1, nil)))
@@ -1584,6 +1608,60 @@ func (w *pworld) fullQueueFamily(id string) {
 	w.observation(w.obsFor(set[2], d))
 }
 
+// look-alike family (C14 / C12): the store holds the quorum VAA of sequence 120 (and 10, 1000) of an emitter while its sequences
+// 12 (1, 100) are still pending without quorum: a pending entry is dropped as "late" only if a quorum VAA for ITS message is stored -
+// not one whose key merely starts the same.
+func (w *pworld) lookAlikeFamily(id string) {
+	r := w.r
+	set := w.randKeys(3)
+	w.reset(id, set[0])
+	gs := &common.GuardianSet{Index: 1}
+	for _, x := range set {
+		gs.Keys = append(gs.Keys, x.addr)
+	}
+	if !w.setUpdate(gs) {
+		return
+	}
+	var emitter vaa.Address
+	r.Read(emitter[:])
+	pairs := [][2]uint64{{12, 120}, {1, 10}, {100, 1000}, {7, 70}}
+	pair := pairs[r.Intn(len(pairs))]
+	mk := func(seq uint64) *common.MessagePublication {
+		k := w.randMsg(emitter, seq)
+		k.EmitterChain, k.TargetChain = 2, 255
+		return k
+	}
+	// the longer sequence completes and is stored
+	kl := mk(pair[1])
+	if !w.message(kl) {
+		return
+	}
+	dl := w.mkVAA(kl, gs.Index).SigningMsg().Bytes()
+	for _, x := range set {
+		if !w.observation(w.obsFor(x, dl)) {
+			return
+		}
+	}
+	// the shorter one is signed by this node only
+	ks := mk(pair[0])
+	if !w.message(ks) {
+		return
+	}
+	ds := w.mkVAA(ks, gs.Index).SigningMsg().Bytes()
+	if !w.observation(w.obsFor(set[0], ds)) {
+		return
+	}
+	w.advance(31 * time.Second)
+	if !w.cleanup(preqCap) {
+		return
+	}
+	w.advance(300 * time.Second)
+	if !w.cleanup(preqCap) {
+		return
+	}
+	w.observation(w.obsFor(set[1], ds))
+}
+
 // subset family (C01/C02): every guardian-set size up to nmax, every position of the own key, every subset of the
 // other guardians signing; observations delivered in random order, own loopback at a random position.
 func (w *pworld) subsetFamily(id string, nmax int) {
@@ -1711,6 +1789,9 @@ func TestVerifProcessor(t *testing.T) {
 	}
 	for i := 0; i < 3; i++ {
 		w.fullQueueFamily(fmt.Sprintf("f%d", i))
+	}
+	for i := 0; i < 4; i++ {
+		w.lookAlikeFamily(fmt.Sprintf("l%d", i))
 	}
 	w.soak("k0", 14, false)
 	w.soak("k1", 14, true)
